@@ -3,6 +3,7 @@ ASSUMPTIONS = []
 BITS = {"lib/bit_stream_reader.c": ["peek_bits", "read_bits", "read_bit"]}
 HARNESSES = [
     dict(name="mtf.init", src="C04/mtf.c", entry="harness_init", unwind=257, units=["lib/pma_common.c:init_history_list"], timeout=120, bounds="concrete, all 256 ranks"),
-    dict(name="mtf.update", src="C04/mtf.c", entry="harness_update", unwind=257, units=["lib/pma_common.c:update_history_list"], timeout=5, bounds="256"),
-    dict(name="mtf.find", src="C04/mtf.c", entry="harness_find", unwind=257, unwindset={"find_in_history_list.0": 129, "find_in_history_list.1": 130}, units=["lib/pma_common.c:find_in_history_list"], timeout=5, bounds="256"),
+    dict(name="mtf.update", src="C04/mtf.c", entry="harness_update", unwind=9, units=["lib/pma_common.c:update_history_list"], timeout=100, bounds="256"),
+    dict(name="mtf.walk", src="C04/mtf.c", entry="harness_walk", unwind=9, units=["lib/pma_common.c:find_in_history_list"], timeout=100, bounds="256"),
+    dict(name="mtf.find", src="C04/mtf.c", entry="harness_find", unwind=257, unwindset={"find_in_history_list.0": 129, "find_in_history_list.1": 130, "harness_find.1": 12}, units=["lib/pma_common.c:find_in_history_list"], timeout=100, bounds="256"),
 ]
